@@ -151,6 +151,8 @@ func isSmall(keys []string) bool {
 
 func runC03(tier string, seed uint64) {
 	rng := NewRng(seed)
+	c03WideDelimiter("mem")
+	c03WideDelimiter("bolt")
 	for _, kind := range allKinds {
 		fs := kind != "mem" && kind != "bolt"
 		sets := keySets(tier, NewRng(seed+7), fs)
@@ -232,7 +234,7 @@ func runC03(tier string, seed uint64) {
 		s.end()
 	}
 	sample("key sets: all subsets of size <= 2 of the 18 keys over {a,b,/} (len <= 3, not starting/ending with '/'), seeded subsets of size 3..6, and 6 'rich' sets (a-x a/x a.x; UTF-8 incl. the top of the 3-byte range and 4-byte characters; nested dirs)")
-	sample("for each set: all 27 prefixes over {a,b,/} of length <= 3 not starting with '/', delimiter none and '/' (and 'b' on mem/bolt), V1 or V2; mem runs versioned with delete-marked ghost keys (next to a live key, below it, and behind each delimiter)")
+	sample("for each set: all 27 prefixes over {a,b,/} of length <= 3 not starting with '/', delimiter none and '/' (and 'b', and the multi-byte characters é and € with an oracle written from the statement, on mem/bolt), V1 or V2; mem runs versioned with delete-marked ghost keys (next to a live key, below it, and behind each delimiter)")
 }
 
 // ---------------------------------------------------------------- C04
@@ -283,8 +285,25 @@ func (s *Sess) walkFrom(b, prefix, delim string, maxKeys int, v2 bool, nKeys int
 	emit(s.prop, "WE", boolField(terminated))
 }
 
+// c04LeadingDelimiter: the witness of known finding D32. Prefix.Match strips leading delimiters from
+// a key, so "/a/x" and "a/y" fall under the same common prefix "a/" although "0" sorts between them;
+// the unpaginated listing reports it once, a walk with max-keys 1 reports it on two pages.
+func c04LeadingDelimiter() {
+	s := newSess("c04", "mem", SessOpts{})
+	b := singleBucketName
+	s.MkBucket(b)
+	emit("c04", "NOTE", hs("leading-delimiter-key"))
+	for _, k := range []string{"/a/x", "0", "a/y"} {
+		s.Put(b, k, []byte(k), nil)
+	}
+	s.walk(b, "", "/", 1, false, 4)
+	s.walk(b, "", "/", 1, true, 4)
+	s.end()
+}
+
 func runC04(tier string, seed uint64) {
 	rng := NewRng(seed)
+	c04LeadingDelimiter()
 	// (1) paginating backend
 	{
 		sets := keySets(tier, NewRng(seed+7), false)
@@ -390,4 +409,59 @@ func runC04(tier string, seed uint64) {
 	}
 	sample("walks: for key sets as in C03 x prefixes {'',a,a/,b,ab} x delimiter {none,/,b} x max-keys 1..n+1, V1 (NextMarker or last key) and V2 (continuation token; also starting from a start-after that is resent with every token, as SDK paginators do) followed to the end and compared with the unpaginated listing; delete-marked ghost key present")
 	sample("single pages from arbitrary markers (each key, last byte +-1, key+'/', beyond the end, start-after); bolt/fs: every max-keys 0..6 with and without marker, WithUnimplementedPageError on and off")
+}
+
+// c03WideDelimiter: a delimiter that is a single character but several bytes long (the model's
+// delimiter is one byte, so the C03 clause is evaluated here, directly from its statement: a key
+// that matches the prefix is listed under Contents if no delimiter follows the prefix, and is
+// otherwise represented by the common prefix "prefix + segment up to and including the delimiter")
+func c03WideDelimiter(kind string) {
+	s := newSess("c03", kind, SessOpts{})
+	emit("c03", "NOMODEL")
+	b := singleBucketName
+	s.MkBucket(b)
+	keys := []string{"aéx", "aéy", "béd", "bécéz", "plain", "c€d€e", "c€f", "cé€g"}
+	for _, k := range keys {
+		s.Put(b, k, []byte("v-"+k), nil)
+	}
+	for _, d := range []string{"é", "€"} {
+		for _, p := range []string{"", "a", "aé", "b", "bé", "béc", "c", "c€", "c€d€", "zz"} {
+			if strings.HasPrefix(p, d) {
+				continue
+			}
+			var wantKeys []string
+			wantPre := map[string]bool{}
+			for _, k := range keys {
+				if !strings.HasPrefix(k, p) {
+					continue
+				}
+				rest := k[len(p):]
+				if i := strings.Index(rest, d); i >= 0 {
+					wantPre[p+rest[:i+len(d)]] = true
+				} else {
+					wantKeys = append(wantKeys, k)
+				}
+			}
+			sort.Strings(wantKeys)
+			var wp []string
+			for x := range wantPre {
+				wp = append(wp, x)
+			}
+			sort.Strings(wp)
+			for _, v2 := range []bool{false, true} {
+				r := s.List(ListReq{Bucket: b, Prefix: p, Delim: d, MaxKeys: -1, V2: v2})
+				gp := append([]string{}, r.Prefixes...)
+				sort.Strings(gp)
+				ok := r.Resp.Status == 200 && fmt.Sprint(r.Keys) == fmt.Sprint(wantKeys) && fmt.Sprint(gp) == fmt.Sprint(wp)
+				msg := fmt.Sprintf("%s list prefix=%q delimiter=%q v2=%v: keys %q common prefixes %q (the statement gives keys %q common prefixes %q)", kind, p, d, v2, r.Keys, gp, wantKeys, wp)
+				if ok {
+					emit("c03", "GOOD", hs(msg))
+				} else {
+					emit("c03", "BAD", hs(msg))
+				}
+				nontrivial(fmt.Sprint(kind, "wide", p, d, v2))
+			}
+		}
+	}
+	s.end()
 }
